@@ -236,6 +236,23 @@ impl LookupTable {
     }
 }
 
+/// Verification hook H2 (cfg poulpy_verif only): read access to the encoded table and to the clear rotation.
+#[cfg(poulpy_verif)]
+impl LookupTable {
+    pub fn verif_data(&self) -> &Vec<VecZnx<Vec<u8>>> {
+        &self.data
+    }
+    pub fn verif_drift(&self) -> usize {
+        self.drift
+    }
+    pub fn verif_rotate<M>(&mut self, module: &M, k: i64)
+    where
+        M: LookupTableFactory,
+    {
+        self.rotate(module, k)
+    }
+}
+
 pub(crate) trait DivRound {
     fn div_round(self, rhs: Self) -> Self;
 }
